@@ -88,22 +88,15 @@ Section T.
       replace (q =? 21)%Z with false by lia. replace (q' =? 21)%Z with false by lia.
       unfold is_quark. rewrite Hq, Hq', He. reflexivity. }
     unfold get_weight, pos_blocks. rewrite Hpos.
-    destruct (proc o) eqn:E; [| |congruence];
-      unfold partonic_coupling, qph, qZ, vectorial_coupling; rewrite Ech, Ew; reflexivity.
+    unfold partonic_coupling, qph, qZ, vectorial_coupling. rewrite Ech, Ew.
+    destruct (proc o) eqn:E; [| |congruence]; reflexivity.
   Qed.
 
   (* ---------------------------------------------------------------- C02 *)
   Definition quark6 (q : Z) : Prop := (q = 1 \/ q = 2 \/ q = 3 \/ q = 4 \/ q = 5 \/ q = 6)%Z.
 
-  Hypothesis two_nz : two <> f0.
-  Hypothesis three_nz : three <> f0.
-
-  Ltac nz := repeat split; auto;
-    match goal with
-    | |- ?x <> f0 => intro E;
-        first [ apply two_nz; unfold two; rewrite <- E; ring
-              | apply three_nz; unfold three, two; rewrite <- E; ring ]
-    end.
+  Hypothesis two_nz : f1 + f1 <> f0.
+  Hypothesis three_nz : f1 + f1 + f1 <> f0.
 
   (* F2, FL, g1 (parity conserving): VV + AA weight = PDG coefficient of (q + qbar) *)
   Theorem lo_nc_pc_pdg_electron t P k q Q2 :
@@ -168,7 +161,13 @@ Section T.
     fsum (map (fun pp => get_weight t (mk_obs p pj P k (Some pp)) pid Q2 c msk) [1; 2; 3; 4; 5; 6]%Z)
     = get_weight t (mk_obs p pj P k None) pid Q2 c msk.
   Proof.
-    intros Hp Hq. unfold get_weight, pos_blocks; cbn [proc pos mk_obs map fsum].
+    intros Hp Hq.
+    assert (EL : forall ps m, leptonic_coupling t (mk_obs p pj P k ps) m c
+                              = leptonic_coupling t (mk_obs p pj P k None) m c) by reflexivity.
+    assert (EP : forall ps m, propagator_factor t (mk_obs p pj P k ps) m Q2
+                              = propagator_factor t (mk_obs p pj P k None) m Q2) by reflexivity.
+    unfold get_weight, pos_blocks; cbn [proc pos mk_obs map fsum].
+    rewrite !(EL (Some _)), !(EP (Some _)).
     destruct p; [| |congruence];
       destruct Hq as [->|[->|[->|[->|[->| ->]]]]]; cbn [Z.eqb Pos.eqb negb]; ring.
   Qed.
@@ -193,7 +192,7 @@ Section T.
     ckm_entry (ckm_masked t k) row col
     = if mask_has k (label_of row col) then ckm_entry (ckm t) row col else f0.
   Proof.
-    intros Hr Hc. unfold ckm_masked. destruct (ckm t) as [[[[[ud us] ub] [[cd cs] cb]] [[td ts] tb]]] eqn:E.
+    intros Hr Hc. unfold ckm_masked. destruct (ckm t) as [[[[ud us] ub] [[cd cs] cb]] [[td ts] tb]] eqn:E.
     destruct row as [|[|[|row]]]; try lia; destruct col as [|[|[|col]]]; try lia;
       cbn [ckm_entry label_of mask_has];
       destruct k as [a b c d l]; cbn [m_dus m_c m_b m_t];
